@@ -40,12 +40,19 @@ RULE = ("(proof part) wait-model cases: seeded random graphs of 1-12 deferred ob
         "(a=a, mutual, forwarding rings, forwarding chains of N1-2..N1+1 plain objects against the `len(seen) >= N1` bound and of N2-1..N2+2 polynomial objects against the `polynomial_steps >= N2` bound of wait(), both literals read from the source), 1-4 wait() calls each, speculative or not; "
         "the real Deferred/Promise objects are driven through the internal API and value / exception class / is_awaiting flags / settled flags are "
         "compared with Model.WaitModel in coqc; non-trivial = distinct graph with >= 1 fn node. "
-        "(exploration part) texts from six streams of tools/c08gen.py, all seeded: valid (proggen grammar-G programs, 1-3 files), wide (every mnemonic of "
+        "(exploration part) texts from seven streams of tools/c08gen.py, all seeded: valid (proggen grammar-G programs, 1-3 files), wide (every mnemonic of "
         "the instruction table with every operand form its stubs admit, every directive of metacommands.py incl. aliases, all bracket styles, all literal "
         "spellings, strings with escapes, nested .repeat <= 8, 1-60 statements, 1-3 files, include depth <= 3, 9 charsets), fault (1-3 planted faults from a "
         "catalogue of 68 kinds), mut (<= 3 token/character delete/duplicate/swap/replace/insert from a fixed alphabet incl. \"'/<>()^,;:.\\t and non-ASCII "
         "letters and digits), cyclic (84 self-referential or size-depends-on-later-address shapes in random context, 1 in 5 mutated), deep (chains of 300 additive / 30 non-linear definitions in all orders, plain alias chains of 10-999 links in all orders (must assemble), non-additive rings of 2-10 definitions (must fail with recursive-definition), DAG-shaped definition chains of 20-300 definitions each using earlier-defined-later symbols twice or more (16 forms, reverse/shuffled order: ok or a reported refusal, never a crash or a watchdog hit), include graphs with cycles (self, 2-/3-cycles, with and without .once, './' and 'sub/../' spellings, chains of 3-40, diamonds), huge/boundary/negative values (1 _ 50, 2**32, 65535/65536/65537, -1 ...) in every count/size/alignment/address position incl. nested .repeat and forward-defined counts, "
-        "30 address-dependent sizes, 8-deep brackets and .repeat). Each text: impl.assemble, then the real main_cli() in process under bare and graphical "
+        "30 address-dependent sizes, 8-deep brackets and .repeat), "
+        "limit (every class of value position with a FINITE range -- immediate and offset fields of the instruction table with the bit width read from the table itself "
+        "(spl 3, mark/xfc 6, emt/trap/sys 8, branches 8 signed, sob 6 backwards), .rad50 <code> (40), .ascii/.asciz <code> (256), .byte, .word / #imm / index / @#address, .dword, "
+        "%register number (8), .link / '. =' / .blkb against the 64 K address space, shift counts against the assembler's own 2**16, BK file names against 16 bytes -- "
+        "with 1-6 values per text from the band around the limit L: every value of L-2..L+12, everything up to the farthest misreading of L (its octal / decimal / hex digits read in "
+        "another radix, the next power of two, 2L, L/2) and those +-1, negated 1 in 12; written as a literal in any radix, a constant defined before or after the use, or a sum that only "
+        "reaches the value after evaluation; for the packed positions (.rad50 triples, string chunks) in every place of the group, after 0-3 and before 0-2 other chunks), "
+        "Each text: impl.assemble, then the real main_cli() in process under bare and graphical "
         "report formats with --lst/-o/--implicit-bin/-Wall variants (in-memory files), and for a sample the real CLI in a subprocess. "
         "non-trivial = distinct text (hash of files+charset) that produced >= 1 diagnostic or has >= 3 lines. " + BOUNDS)
 ASSUME = ["CPython 3.12 semantics of int, str, struct, chr, open as read by the translator plug-ins (py_* definitions in the Gen files)",
@@ -60,12 +67,12 @@ LEVEL_TEXT = ("PARTIAL by nature. Proved in Coq (all closed under the global con
               "for 'any source text' the check only searches (generated texts on the real code under a watchdog), which is exploration, reported separately.")
 LEVEL_NOTE = ("Trusted: Coq kernel + vm_compute; translator plug-ins gen_partial/gen_operators/gen_meta and their reading of Python; the harness (impl.py, c08run.py: "
               "watchdog, in-memory files, domain counters patched around Compiler.compile_block / the product operator / parser.expression); c08gen.py decides "
-              "what is explored. Theorems named *_partial say in a comment what is missing.")
+              "what is explored (the limit stream takes the ranges of instruction fields from the implementation's own table and the ranges of directive operands from a fixed list in c08gen.limit_classes: a bounded position missing from that list is not swept). Theorems named *_partial say in a comment what is missing.")
 TECHNIQUE = "Coq proof of a fuelled model of lazy evaluation and of guarded partial operations + model/implementation correspondence; grammar-directed search with fault planting and mutation on the real code"
 TRUSTED = ["tools/c08run.py domain counters (monkey-patched wrappers, nothing in /repo changed)", "tools/c08gen.py (which inputs are explored)",
            "tools/gens/gen_partial.py (pinned source shapes of the guarded sites)"]
 
-STREAM_SHARE = {"valid": 0.12, "wide": 0.24, "fault": 0.24, "mut": 0.24, "cyclic": 0.10, "deep": 0.06}
+STREAM_SHARE = {"valid": 0.12, "wide": 0.22, "fault": 0.22, "mut": 0.22, "cyclic": 0.10, "deep": 0.06, "limit": 0.06}
 
 
 # ---------------------------------------------------------------------------------------------
